@@ -1,6 +1,218 @@
-From Coq Require Import List Arith Bool.
+(** C08 — polytomies are resolved by exploring every binary refinement exactly once.
+    Statements only; every proof is [exact <lemma of Proofs/BinarizeProofs.v>].
+
+    Vocabulary (Model/Binarize.v, Proofs/BinarizeProofs.v):
+    [rose] input trees of any arity, [bt] binary trees, both with one label
+    [lab = option nat] per node (the bundle name + colour; the name for leaves);
+    [atree A] binary trees over atoms of type [A], [aleaves] their atoms left to right;
+    [eqv] / [beqv] equality of [atree] / [bt] up to the order of children;
+    [rleaves] / [bleaves] leaf labels left to right; [rsub s t] / [bsub s b]: [s] is a
+    node (subtree) of the tree; [rlabel] / [blabel] the label at the root;
+    [arity_ok t]: every internal node of [t] has at least two children;
+    [ForallOrdPairs R l]: [R x y] for every [x] occurring before [y] in [l]. *)
+From Coq Require Import List Bool Arith NArith Permutation.
 From SR Require Import Model.Binarize Proofs.BinarizeProofs.
 Import ListNotations.
-Theorem C08_leaf : forall n, binarize (RLeaf n) = [BLeaf n].
-Proof. exact binarize_leaf. Qed.
-Print Assumptions C08_leaf.
+
+(** ** [arrange_leaves]: the binary trees over k atoms *)
+
+(* (2k-3)!! arrangements of k >= 1 atoms ([odd_double_fact j] = (2j-1)!!, so
+   for k = j+1 atoms this is (2k-3)!!); none for no atom. *)
+Theorem C08_arrange_count : forall (A : Type) (xs : list A),
+  length (arrange xs) = arr_count (length xs).
+Proof. exact @arrange_length. Qed.
+Print Assumptions C08_arrange_count.
+
+Theorem C08_arrange_count_double_factorial : forall (A : Type) (xs : list A) k,
+  length xs = S k -> length (arrange xs) = odd_double_fact k.
+Proof. exact @arrange_count_double_fact. Qed.
+Print Assumptions C08_arrange_count_double_factorial.
+
+(* every result is a binary tree over exactly the given atoms *)
+Theorem C08_arrange_sound : forall (A : Type) (xs : list A) t,
+  In t (arrange xs) -> Permutation (aleaves t) xs.
+Proof. exact @arrange_perm. Qed.
+Print Assumptions C08_arrange_sound.
+
+(* no two results are equal up to the order of children *)
+Theorem C08_arrange_nodup : forall (A : Type) (xs : list A),
+  NoDup xs -> ForallOrdPairs (fun t1 t2 => ~ eqv t1 t2) (arrange xs).
+Proof. exact @arrange_fop. Qed.
+Print Assumptions C08_arrange_nodup.
+
+(* every binary tree over the atoms is produced, up to the order of children *)
+Theorem C08_arrange_complete : forall (A : Type) (xs : list A) (T : atree A),
+  Permutation (aleaves T) xs -> exists t, In t (arrange xs) /\ eqv T t.
+Proof. exact @arrange_complete. Qed.
+Print Assumptions C08_arrange_complete.
+
+(* the graft step: 2m-1 positions in a tree with m atoms *)
+Theorem C08_graft_count : forall (A : Type) (t : atree A) x,
+  length (graft t x) = 2 * length (aleaves t) - 1.
+Proof. exact @graft_length. Qed.
+Print Assumptions C08_graft_count.
+
+(** ** [binarize]: the binary refinements of a tree *)
+
+(* the number of results is the product over the nodes of (2k-3)!! *)
+Theorem C08_binarize_count : forall t, length (binarize t) = refinement_count t.
+Proof. exact binarize_length. Qed.
+Print Assumptions C08_binarize_count.
+
+(* every result is binary, has the leaves of the original, and contains every
+   clade of the original as the clade of a node bearing the label (name and
+   colour) of the original node; in particular leaves keep their names *)
+Theorem C08_binarize_sound : forall t b, arity_ok t = true -> In b (binarize t) ->
+  is_binary (bt_to_rose b) = true /\
+  Permutation (bleaves b) (rleaves t) /\
+  (forall s, rsub s t ->
+     exists b', bsub b' b /\ Permutation (bleaves b') (rleaves s) /\ blabel b' = rlabel s).
+Proof. exact binarize_sound. Qed.
+Print Assumptions C08_binarize_sound.
+
+Theorem C08_binarize_leaves_kept : forall t b n, arity_ok t = true -> In b (binarize t) ->
+  rsub (RLeaf n) t -> bsub (BLeaf n) b.
+Proof. exact binarize_leaves_kept. Qed.
+Print Assumptions C08_binarize_leaves_kept.
+
+(* with distinct leaf names, no two results are equal up to the order of children *)
+Theorem C08_binarize_nodup : forall t, NoDup (rleaves t) -> arity_ok t = true ->
+  ForallOrdPairs (fun a b => ~ beqv a b) (binarize t).
+Proof. exact binarize_fop. Qed.
+Print Assumptions C08_binarize_nodup.
+
+(* [refines t b] (Proofs/BinarizeProofs.v): [b] is obtained from [t] by refining
+   every child and joining the refined children of each node by an arbitrary
+   binary tree with unlabelled new nodes, the root keeping the node's label.
+   Every result is such a refinement and every such refinement is produced,
+   up to the order of children. *)
+Theorem C08_refines_unfold : forall lb cs b,
+  refines (RNode lb cs) b <->
+  exists ds T, Forall2 refines cs ds /\ Permutation (aleaves T) ds /\ b = relabel lb (flat T).
+Proof. exact refines_node. Qed.
+Print Assumptions C08_refines_unfold.
+
+Theorem C08_binarize_refines : forall t b, In b (binarize t) -> refines t b.
+Proof. exact binarize_refines. Qed.
+Print Assumptions C08_binarize_refines.
+
+Theorem C08_binarize_complete : forall t b, refines t b ->
+  exists b', In b' (binarize t) /\ beqv b b'.
+Proof. exact refines_complete. Qed.
+Print Assumptions C08_binarize_complete.
+
+(* The code's [graft] knows no atoms: it walks a plain tree and stops at a node
+   whose topology id is in the [ignore] set (the ids of the other resolved
+   children).  That literal variant ([binarize_lit], comparison of ids =
+   [same_id]) returns the same list as the atom variant all theorems above are
+   about, for any id comparison under which equal ids imply equal leaf sets,
+   when leaf names are distinct; "same set of leaf names" is such a comparison. *)
+Theorem C08_ignore_set_is_atoms : forall same_id : bt -> bt -> bool,
+  (forall a, same_id a a = true) ->
+  (forall a b, same_id a b = true -> forall y, In y (bleaves a) <-> In y (bleaves b)) ->
+  forall t, NoDup (rleaves t) -> arity_ok t = true ->
+  binarize_lit same_id t = binarize t.
+Proof. exact binarize_lit_eq. Qed.
+Print Assumptions C08_ignore_set_is_atoms.
+
+Theorem C08_same_leafset_is_an_id :
+  (forall a, same_leafset a a = true) /\
+  (forall a b, same_leafset a b = true -> forall y, In y (bleaves a) <-> In y (bleaves b)).
+Proof. exact (conj same_leafset_refl same_leafset_leaves). Qed.
+Print Assumptions C08_same_leafset_is_an_id.
+
+(* a binary tree is its own single refinement, so [ReconciliationInput.binarize]
+   (which returns the input itself when both trees are binary) always yields
+   the product of the refinements of the two trees *)
+Theorem C08_binary_unchanged : forall t, is_binary t = true ->
+  exists b, rose_to_bt t = Some b /\ binarize t = [b].
+Proof. exact binarize_binary. Qed.
+Print Assumptions C08_binary_unchanged.
+
+Theorem C08_input_binarize_product : forall o s,
+  input_binarize o s = list_prod (binarize o) (binarize s).
+Proof. exact input_binarize_product. Qed.
+Print Assumptions C08_input_binarize_product.
+
+(** ** open: the end-to-end clause
+
+    "The extended solvers return the optimum over all binary refinements of both
+    trees."  It needs the solver models of C02/C03 and the batch-update theorem
+    of C16; only its shape can be stated here, for any model [binary_opt] of the
+    binary solver's optimum and any model [extended] of the outer loop of
+    [_spfs] / [_uspfs].  Not proved; covered by the end-to-end correspondence
+    batch only (see harness/props/c08.py, OPEN_GOALS). *)
+Definition omin (a b : option N) : option N :=
+  match a, b with
+  | None, x => x
+  | x, None => x
+  | Some x, Some y => Some (N.min x y)
+  end.
+
+Definition ext_optimum_refinements_statement
+  (binary_opt : bt -> bt -> option N) (extended : rose -> rose -> option N) : Prop :=
+  forall o s,
+    extended o s =
+    fold_right omin None (map (fun p => binary_opt (fst p) (snd p)) (input_binarize o s)).
+
+(** ** completeness against the algorithm-independent characterisation
+
+    A binary tree with the leaves of [t], in which every clade of [t] is the
+    clade of a node bearing the label of the original node and every other node
+    is an unlabelled inner node, is a refinement in the sense of [refines], hence
+    is produced by [binarize] up to the order of children.  Together with
+    [C08_binarize_sound], [C08_binarize_refines] and [C08_binarize_nodup]:
+    [binarize t] lists exactly these trees, each once. *)
+Theorem C08_clade_refinement_is_refines : forall t b,
+  NoDup (rleaves t) -> arity_ok t = true ->
+  Permutation (bleaves b) (rleaves t) ->
+  (forall s, rsub s t ->
+     exists b', bsub b' b /\ Permutation (bleaves b') (rleaves s) /\ blabel b' = rlabel s) ->
+  (forall b', bsub b' b ->
+     (exists s, rsub s t /\ Permutation (bleaves b') (rleaves s)) \/ (exists l r, b' = BNode None l r)) ->
+  refines t b.
+Proof. exact clade_refinement_is_refines. Qed.
+Print Assumptions C08_clade_refinement_is_refines.
+
+Theorem C08_binarize_complete_clades : forall t b,
+  NoDup (rleaves t) -> arity_ok t = true ->
+  Permutation (bleaves b) (rleaves t) ->
+  (forall s, rsub s t ->
+     exists b', bsub b' b /\ Permutation (bleaves b') (rleaves s) /\ blabel b' = rlabel s) ->
+  (forall b', bsub b' b ->
+     (exists s, rsub s t /\ Permutation (bleaves b') (rleaves s)) \/ (exists l r, b' = BNode None l r)) ->
+  exists b0, In b0 (binarize t) /\ beqv b b0.
+Proof. exact clade_refinement_produced. Qed.
+Print Assumptions C08_binarize_complete_clades.
+
+(** ** non-vacuity *)
+
+Example C08_counts : map arr_count [1; 2; 3; 4; 5; 6] = [1; 1; 3; 15; 105; 945].
+Proof. reflexivity. Qed.
+
+Example C08_arrange_three :
+  arrange [0; 1; 2] =
+  [Join (Atom 0) (Join (Atom 1) (Atom 2));
+   Join (Join (Atom 0) (Atom 1)) (Atom 2);
+   Join (Atom 1) (Join (Atom 0) (Atom 2))].
+Proof. reflexivity. Qed.
+
+(* ((a,b,c)X,d,e)R : hypotheses of the theorems hold, 3 * 3 = 9 refinements *)
+Definition C08_t0 : rose :=
+  RNode (Some 9)
+    [RNode (Some 8) [RLeaf (Some 0); RLeaf (Some 1); RLeaf (Some 2)];
+     RLeaf (Some 3); RLeaf (Some 4)].
+
+Example C08_example :
+  NoDup (rleaves C08_t0) /\ arity_ok C08_t0 = true /\
+  length (binarize C08_t0) = 9 /\ refinement_count C08_t0 = 9 /\
+  nth_error (binarize C08_t0) 1 =
+    Some (BNode (Some 9)
+            (BNode None
+               (BNode (Some 8) (BLeaf (Some 0)) (BNode None (BLeaf (Some 1)) (BLeaf (Some 2))))
+               (BLeaf (Some 3)))
+            (BLeaf (Some 4))).
+Proof.
+  split; [|repeat split].
+  simpl. repeat (constructor; [simpl; intuition congruence|]). constructor.
+Qed.
